@@ -100,8 +100,13 @@ def run(F, R, tier):
         AP + "shared_state::key_keeper_wrapper::KeyKeeperSharedState::get_current_key_guid_and_value::{closure#0}": "hands (guid, secret) to signing code",
         AP + "key_keeper::key::attest_key::{closure#0}": "signs the attestation request",
     }
+    # a closure nested in a reviewed reader (`get_key().await?.map(|k| k.key)`) is part of that reader
+    root = lambda x: x.split("::{closure")[0]
+    allowed_roots = {root(k): v for k, v in allowed_readers.items()}
     for fid in sorted(readers):
-        ok = fid in allowed_readers or "_serde::" in fid
+        ok = fid in allowed_readers or "_serde::" in fid or root(fid) in allowed_roots
+        if ok and fid not in allowed_readers and "_serde::" not in fid:
+            allowed_readers[fid] = allowed_roots[root(fid)] + " (nested closure)"
         R.check(ok, "C12.R1", "C12.R1:reader:%s" % fid, "%s:%s" % (F.fns[fid]["file"], readers[fid][0]),
                 "reads Key::key – reviewed: %s" % allowed_readers.get(fid, "serde-derive generated (de)serialiser"),
                 "new reader of field Key::key (line(s) %s); every reader must be reviewed and listed" % readers[fid])
